@@ -55,7 +55,7 @@ class Recorder:
             "reactants": list(net._reactants), "products": list(net._products),
             "species": list(net.species), "sources": list(src), "sinks": list(snk),
             "idxs": [r.idxfromfile for r in net.reaction_list],
-            "allowed": list(net._allowed_species),
+            "allowed": list(net._allowed_species), "required": list(net._required_species),
         }
 
     def ask(self, sl):
@@ -212,7 +212,16 @@ def install():
                     raise
                 finally:
                     _depth -= 1
-                    rec.log(self, {"act": act, key: list(getattr(self, attr)), "err": err})
+                    # the event carries what was REQUESTED (the argument), not what the object stored: the specification's step installs the
+                    # request, the projected state afterwards says what the object made of it
+                    asked = list(getattr(self, attr))
+                    if not err:
+                        try:
+                            from naunet.species import Species as _Sp
+                            asked = [v if not isinstance(v, str) else _Sp(v, **getattr(self, "_species_kwargs", {})) for v in value]
+                        except Exception:   # noqa
+                            asked = list(getattr(self, attr))
+                    rec.log(self, {"act": act, key: asked, "err": err})
             return setter
         setattr(Network, pname, property(prop.fget, mk(), prop.fdel, prop.__doc__))
 
@@ -299,13 +308,13 @@ def to_traces(rec: Recorder, tid0: int = 1, meta: dict | None = None, merge: boo
             if p is None and e["act"] == "Init":
                 # the state right after construction arguments were installed and before any reaction: by definition empty
                 p = {"rlist": [], "skipped": [], "reactants": [], "products": [], "species": e.get("required", []),
-                     "sources": [], "sinks": [], "idxs": [], "allowed": e.get("allowed", [])}
+                     "sources": [], "sinks": [], "idxs": [], "allowed": e.get("allowed", []), "required": e.get("required", [])}
             o["post"] = {
                 "rlist": [rix(x) for x in p["rlist"]], "skipped": [rix(x) for x in p["skipped"]],
                 "reactants": sorted({cls(s) for s in p["reactants"]}), "products": sorted({cls(s) for s in p["products"]}),
                 "species": sorted({cls(s) for s in p["species"]}), "sources": sorted({cls(s) for s in p["sources"]}),
                 "sinks": sorted({cls(s) for s in p["sinks"]}), "idxs": p["idxs"],
-                "allowed": sorted({cls(s) for s in p["allowed"]}),
+                "allowed": sorted({cls(s) for s in p["allowed"]}), "required": sorted({cls(s) for s in p.get("required", [])}),
             }
             if "ws" in p:
                 o["post"]["ws"] = [{"c": cls(sp), "m": m, "a": a} for sp, m, a in p["ws"]]
